@@ -36,6 +36,7 @@ CONFIGS = {
     'c89': [],
     'c89dtostre': ['-DUSE_CUSTOM_DTOSTRE=1'],            # a C89 target without snprintf: the library's own formatter
     'uchar': [],                                         # plain char is unsigned (ARM, PowerPC)
+    'usererr': ['-DSCPI_USER_CONFIG', '-I' + os.path.join(HARNESS, 'usererr')],      # USE_USER_ERROR_LIST with descriptions of our own
 }
 # flags for the library sources only (the drivers keep the default dialect)
 LIBFLAGS = {'iso': ['-std=c99'], 'c89': ['-std=c89'], 'c89dtostre': ['-std=c89'], 'uchar': ['-funsigned-char']}      # c89: additionally no stdbool (scpi_bool_t is an unsigned char)
@@ -334,6 +335,9 @@ def errtable_dir():
     r = os.path.join(repo(), 'libscpi')
     src = open(os.path.join(r, 'inc', 'scpi', 'error.h'), errors='replace').read()
     ents = re.findall(r'XE?\(\s*\w+\s*,\s*(-?\d+)\s*,\s*"((?:[^"\\]|\\.)*)"\s*\)', src)
+    # the user error list of the verification build 'usererr' (harness/usererr/scpi_user_config.h): codes no other build defines
+    usr = open(os.path.join(HARNESS, 'usererr', 'scpi_user_config.h')).read()
+    ents += re.findall(r'XE?\(\s*\w+\s*,\s*(-?\d+)\s*,\s*"((?:[^"\\]|\\.)*)"\s*\)', usr)
     m = re.search(r'default\s*:\s*return\s*"((?:[^"\\]|\\.)*)"', open(os.path.join(r, 'src', 'error.c'), errors='replace').read())
     fb = m.group(1) if m else 'Unknown error'
     unesc = lambda t: t.encode('latin1', 'replace').decode('unicode_escape')
